@@ -1,6 +1,6 @@
 /-
 C10 — driver.  One trace line = one independent call of the real code:
-  run api=<mr|void|each> n=<items> w=<workers> ctx=<none|can|pre> gp=<k|-> gx=<k|-> gw=<k:ev,…|-> m=<s0>/<s1>/… r=<script>
+  run api=<mr|void|each|chan|finish|finishvoid> n=<items> w=<def|a[,b…]> ctx=<none|can|pre> gp=<k|-> gx=<k|-> gw=<k:ev,…|-> m=<s0>/<s1>/… r=<script> [co=<k>]
     => res=<val:v|ok|err:E<k>|err:nil|err:deadline|err:noout|panic:<pg|pm<i>|pr|multi|sendclosed>|hang>
        left=<goroutines left> mapped=<items> reduced=<values> hist=<totally ordered events> stalltimeouts=<k> panicked=<k> waitsbyret=<k>
 The monitor (`violation`) evaluates the property on what the implementation did — the outcome must be in
@@ -22,6 +22,7 @@ def parseAct (t : String) : Option (Option UAct) :=
   | ['o'] => some (some .readOne)
   | ['s'] => some none
   | ['y'] => some none
+  | ['f'] => some none
   | ['x'] => some none
   | 'u' :: _ :: _ => some none
   | 't' :: _ :: _ => some none
@@ -106,21 +107,52 @@ def parseGw (s : String) : Option (List (Nat × String)) :=
     | [k, ev] => if ev = "" then none else k.toNat?.map fun k => (k, ev)
     | _ => none
 
+/-- the values a mapper script writes BEFORE its first drop point: a point after which the context is certainly
+over (`x`, `uxb`) or `done` is certainly closed (its own cancel returned `c…`, another cancel returned `uce…`, the
+call returned `s`; a wait released by the return of the call is such a point too).  `guardedWriter.Write` must
+drop every later write. -/
+def liveWritesOf (raw : String) : List Nat :=
+  if raw = "-" then [] else
+  let toks := (raw.splitOn ".").takeWhile fun t =>
+    !(t = "x" || t = "s" || t = "uxb" || t.startsWith "uce" || t.startsWith "c")
+  toks.filterMap fun t => match t.toList with
+    | 'w' :: d => (String.ofList d).toNat?
+    | _ => none
+
 structure Run where
+  liveWrites : List (List Nat) := []
   api : String
   cfg : Cfg
   scripts : List (List UAct)
   waits : List String      -- "<who>-on-<event class>" of every wait / generator stall of the call
 
-def minWorkers : Nat := 1
+def minWorkers : Nat := minWorkersN
+def defaultWorkers : Nat := defaultWorkersN
+
+/-- `w=def` (no WithWorkers option) or a list of WithWorkers arguments in the order they are applied. -/
+def parseWorkers (s : String) : Option (List Int) :=
+  if s = "def" then some [] else (s.splitOn ",").mapM (·.toInt?)
+
+/-- a function handed to Finish: no writes, no cancel(nil); `return err` ends it. -/
+def finishScriptOk : List UAct → Bool
+  | [] => true
+  | [.cancel (some _)] => true
+  | .panic :: _ => true
+  | .cancel _ :: _ => false
+  | .write _ :: _ => false
+  | _ :: sc => finishScriptOk sc
+
+def isEachApi (api : String) : Bool := api = "each" || api = "finishvoid"
+def isVoidApi (api : String) : Bool := api = "void" || api = "finish"
 
 def parseRun (op : List String) : Option Run :=
   match op with
   | "run" :: kvs => do
     let api ← kv? kvs "api"
-    if api ≠ "mr" ∧ api ≠ "void" ∧ api ≠ "each" then none
+    if ¬ ["mr", "void", "each", "chan", "finish", "finishvoid"].contains api then none
     let n ← (← kv? kvs "n").toNat?
-    let w ← (← kv? kvs "w").toInt?
+    let ws ← parseWorkers (← kv? kvs "w")
+    let lib := api = "finish" || api = "finishvoid"      -- the library itself passes WithWorkers(len(fns))
     let ctx ← kv? kvs "ctx"
     if ctx ≠ "none" ∧ ctx ≠ "can" ∧ ctx ≠ "pre" then none
     let gp ← parseOptNat (← kv? kvs "gp")
@@ -130,8 +162,15 @@ def parseRun (op : List String) : Option Run :=
     if parts.length ≠ n then none
     let ms ← parts.mapM parseScript
     let r0 ← parseScript (← kv? kvs "r")
-    -- MapReduceVoid hands the reducer no writer
-    let r := if api = "mr" then r0 else r0.filter fun a => match a with | .write _ => false | _ => true
+    if lib ∧ (¬ r0.isEmpty ∨ ctx ≠ "none" ∨ gp.isSome) then none
+    if api = "chan" ∧ gp.isSome then none
+    if api = "finish" ∧ ¬ ms.all finishScriptOk then none
+    if api = "finishvoid" ∧ ¬ ms.all (fun sc => finishScriptOk sc ∧ ¬ hasCancel sc) then none
+    -- MapReduceVoid hands the reducer no writer; ForEach / FinishVoid: the caller itself ranges over the collector
+    -- (simulated by a reducer `[readAll]`, see Spec) and the mapper has neither a writer nor a cancel
+    let ms := if isEachApi api then ms.map (fun sc => sc.filter fun a => a = .panic) else ms
+    let r := if api = "mr" ∨ api = "chan" then r0 else if isEachApi api then [.readAll]
+      else r0.filter fun a => match a with | .write _ => false | _ => true
     let xs := parts.any usesCtx || usesCtx ((kv? kvs "r").getD "") || gx.isSome
     if xs ∧ ctx = "none" then none
     let gw ← parseGw ((kv? kvs "gw").getD "-")
@@ -139,8 +178,8 @@ def parseRun (op : List String) : Option Run :=
     let waits := gw.map (fun p => s!"generator-on-{waitClass p.2}")
       ++ (parts.flatMap waitsOf).map (fun cl => s!"mapper-on-{cl}")
       ++ (waitsOf ((kv? kvs "r").getD "-")).map (fun cl => s!"reducer-on-{cl}")
-    pure { api := api, scripts := ms, waits := waits,
-           cfg := { n := n, workers := if w < (minWorkers : Int) then minWorkers else w.toNat, gPanicAt := gp,
+    pure { api := api, scripts := ms, waits := waits, liveWrites := parts.map liveWritesOf,
+           cfg := { n := n, workers := if lib then clampWorkers n else workersOf ws, gPanicAt := gp,
                     mscript := fun i => ms.getD i [], rscript := r,
                     ctxCan := ctx = "can", ctxPre := ctx = "pre", fixed := true } }
   | _ => none
@@ -159,8 +198,8 @@ def showPVal : PVal → String
   | .sendClosed => "sendclosed"
 
 def showRes (api : String) : Res → String
-  | .val v => if api = "mr" then s!"val:{v}" else "ok"
-  | .err .noOutput => if api = "mr" then "err:noout" else "ok"
+  | .val v => if api = "mr" ∨ api = "chan" then s!"val:{v}" else "ok"
+  | .err .noOutput => if api = "mr" ∨ api = "chan" then "err:noout" else "ok"
   | .err e => s!"err:{showErr e}"
   | .panic p => s!"panic:{showPVal p}"
 
@@ -242,6 +281,7 @@ def runLine (r : Report) (sec : Nat) (l : Line) : Report := Id.run do
   let some stallT := (kv? l.obs "stalltimeouts").bind (·.toNat?) | return r.mismatch sec l.idx "bad-obs-stall" (joinSp l.obs)
   let some panicked := (kv? l.obs "panicked").bind (·.toNat?) | return r.mismatch sec l.idx "bad-obs-panicked" (joinSp l.obs)
   let some waitsByRet := (kv? l.obs "waitsbyret").bind (·.toNat?) | return r.mismatch sec l.idx "bad-obs-waitsbyret" (joinSp l.obs)
+  let some nestedBad := (kv? l.obs "nestedbad").bind (·.toNat?) | return r.mismatch sec l.idx "bad-obs-nestedbad" (joinSp l.obs)
   let opS := joinSp l.op
   let histS := (kv? l.obs "hist").getD "-"
   r := r.addCover s!"api-{run.api}"
@@ -251,6 +291,20 @@ def runLine (r : Report) (sec : Nat) (l : Line) : Report := Id.run do
   if c.ctxPre then r := r.addCover "ctx-pre"
   if c.ctxCan then r := r.addCover "ctx-can"
   if (l.op.any fun t => (t.splitOn ".").contains "s") then r := r.addCover "outlives-call"
+  -- the option / entry-point glue
+  let wS := (kv? l.op "w").getD ""
+  let lib := run.api = "finish" || run.api = "finishvoid"
+  if ¬ lib then
+    if wS = "def" then r := r.addCover "workers-default(no-option)"
+    if ((parseWorkers wS).getD []).any (· < 1) then r := r.addCover "workers-option<1"
+    if ((parseWorkers wS).getD []).length > 1 then r := r.addCover "workers-option-list(last-wins)"
+    if (kv? l.op "co") = some "0" then r := r.addCover "context-option-first"
+  if c.workers = defaultWorkers then r := r.addCover "workers=16"
+  if (l.op.any fun t => ((t.splitOn "=").getD 1 "").splitOn "/" |>.any fun sc => (sc.splitOn ".").contains "f") then
+    r := r.addCover "nested-calls-from-a-user-function"
+  if isEachApi run.api ∧ (c.ctxCan ∨ c.ctxPre) then r := r.addCover "each-with-context"
+  if nestedBad ≠ 0 then
+    r := r.violation sec l.idx s!"{nestedBad} nested call(s) from inside a user function misbehaved (two functions of one Finish could not run at the same time / FinishVoid did not run both / a default MapReduce did not return its sum) op=[{joinSp l.op}]"
   for wt in run.waits.eraseDups do r := r.addCover s!"wait-{wt}"
   if waitsByRet > 0 then r := r.addCover "wait-released-by-return"
   r := r.addCover s!"res-{(resS.splitOn ":").headD ""}{if resS.startsWith "err:E" then ":E" else if resS.startsWith "panic:pm" then ":pm" else if resS.startsWith "val" then "" else ":" ++ ((resS.splitOn ":").getD 1 "")}"
@@ -276,27 +330,33 @@ def runLine (r : Report) (sec : Nat) (l : Line) : Report := Id.run do
   let se := startEnd hist
   if peak se > c.workers then
     r := r.violation sec l.idx s!"mapper cap: {peak se} mappers ran concurrently, workers={c.workers} op=[{opS}]"
-  if peak se = c.workers ∧ c.workers > 1 then r := r.addCover "cap-reached"
+  if peak se = c.workers ∧ c.workers > 1 then
+    r := r.addCover "cap-reached"
+    r := r.addCover s!"cap-reached-{run.api}"
+    if c.workers = defaultWorkers then r := r.addCover "cap-reached-16"
   if ¬ hist.contains .ret then
     r := r.violation sec l.idx s!"the call returned but the history has no return event op=[{opS}]"
   if ¬ (mapped.all (· < c.n)) ∨ ¬ (mapped.all fun i => mapped.count i = 1) then
     r := r.violation sec l.idx s!"an item was handed to the mapper more than once (or is unknown): mapped={showNats mapped} op=[{opS}]"
-  if run.api ≠ "each" ∧ ¬ subMultiset reduced (writesOfItems c mapped) then
+  if ¬ isEachApi run.api ∧ subMultiset reduced (writesOfItems c mapped) ∧
+      ¬ subMultiset reduced (mapped.flatMap fun i => run.liveWrites.getD i []) then
+    r := r.violation sec l.idx s!"the reducer received a value whose Write began after the context was over / after a cancel had returned (guardedWriter.Write must drop it): reduced={showNats reduced} hist={histS} op=[{opS}]"
+  if run.liveWrites.any (fun lw => !lw.isEmpty) ∧ (run.scripts.zip run.liveWrites).any (fun p => (writesOf p.1).length > p.2.length) then
+    r := r.addCover "mapper-write-after-drop-point"
+  if ¬ isEachApi run.api ∧ ¬ subMultiset reduced (writesOfItems c mapped) then
     r := r.violation sec l.idx s!"the reducer received a value more often than it was written: reduced={showNats reduced} op=[{opS}]"
-  if run.api = "each" then
-    -- ForEach: returns, or re-raises a user panic
+  if isEachApi run.api ∧ (c.ctxCan ∨ c.ctxPre) then
+    -- ForEach with a context (outside the model: the caller has no context case): returns, or re-raises a user panic
     let okRes : Bool := resS = "ok" || (match parseRes resS with
       | some (.panic .gen) => allowed c (.panic .gen)
-      | some (.panic (.mapper i)) => allowed c (.panic (.mapper i))
+      | some (.panic (.mapper i)) => allowed c (.panic (.mapper i)) && hist.contains (.mpanic i)
       | _ => false)
     if !okRes then r := r.violation sec l.idx s!"ForEach outcome {resS} not allowed op=[{opS}]"
-    if panicked > 0 ∧ resS = "ok" then
-      r := r.violation sec l.idx s!"ForEach lost a user panic op=[{opS}]"
-    if panicked = 0 ∧ sorted mapped ≠ List.range c.n then
-      r := r.violation sec l.idx s!"ForEach: mapped={showNats mapped}, expected every item once op=[{opS}]"
     return r
   let some res := (if resS = "ok" then some (.err .noOutput) else parseRes resS)
     | return r.violation sec l.idx s!"outcome {resS} is neither a cancel/context error, a user panic nor a value op=[{opS}]"
+  if run.api ≠ "mr" ∧ run.api ≠ "chan" ∧ (resS = "err:noout" ∨ resS.startsWith "val:") then
+    r := r.violation sec l.idx s!"{run.api} returned {resS}: ErrReduceNoOutput must become nil and there is no value op=[{opS}]"
   if ¬ allowed c res then
     r := r.violation sec l.idx s!"outcome {resS} is not in the returned-error table of this call op=[{opS}]"
   -- the table for the schedule that actually happened
@@ -311,7 +371,15 @@ def runLine (r : Report) (sec : Nat) (l : Line) : Report := Id.run do
   if hr.contains .rend ∧ setEvidence mapped (upTo (· == .rend) hr) then r := r.addCover "sched-error-recorded-before-reducer-end"
   if (hr.filter (fun e => match e with | .cbegin _ _ => true | _ => false)).length ≥ 2 ∧ hr.any isCend then
     r := r.addCover "sched-cancel-after-a-completed-cancel"
-  if ¬ allowedAt mapped hist res then
+  -- ForEach / FinishVoid / Finish have no user reducer: there is no reducer event to place `nil` against; instead:
+  -- a nil return means every function ran and none of them had announced an error / a panic
+  let noUserReducer := isEachApi run.api || run.api = "finish"
+  if noUserReducer ∧ res = .err .noOutput then
+    if hr.any (fun e => match e with | .cbegin _ _ => true | _ => false) then
+      r := r.violation sec l.idx s!"{run.api} returned nil although a function had returned an error before hist={histS} op=[{opS}]"
+    if sorted mapped ≠ List.range c.n then
+      r := r.violation sec l.idx s!"{run.api} returned before every function / item was run exactly once: ran={showNats mapped} op=[{opS}]"
+  if ¬ (noUserReducer ∧ res = .err .noOutput) ∧ ¬ allowedAt mapped hist res then
     -- an error that WAS passed to cancel before the return, but by a call that began after another cancel call had
     -- returned, satisfies the property's text; it contradicts the model (cancel runs under a sync.Once:
     -- `Props.first_cancel_wins`): reported as a broken correspondence, not as a property violation
@@ -337,7 +405,7 @@ def runLine (r : Report) (sec : Nat) (l : Line) : Report := Id.run do
   let mut k := 0
   for prio in schedules c.n do
     k := k + 1
-    let fin := runPrio c prio (fuelFor run) (init c)
+    let fin := runPrioA c prio (fuelFor run) (init c)
     match result fin with
     | none => r := r.mismatch sec l.idx s!"model: caller not finished under schedule {k}" resS
     | some mr =>
@@ -361,8 +429,57 @@ def runLine (r : Report) (sec : Nat) (l : Line) : Report := Id.run do
   else r := r.addCover "outcome-not-among-sampled-model-schedules"
   return r
 
+/-! ### errorx.AtomicError on its own (second harness): `ae set|load|cset <inst> …` -/
+
+def showCell : Option Nat → String
+  | none => "nil"
+  | some k => s!"E{k}"
+
+def parseCell (s : String) : Option (Option Nat) :=
+  if s = "nil" then some none else match s.toList with
+    | 'E' :: d => (String.ofList d).toNat?.map some
+    | _ => none
+
+abbrev Cells := List (String × Option Nat)
+
+def cellGet (cs : Cells) (n : String) : Option Nat := ((cs.find? (·.1 = n)).map (·.2)).getD none
+def cellPut (cs : Cells) (n : String) (v : Option Nat) : Cells := (n, v) :: cs.filter (·.1 ≠ n)
+
+def runAe (st : Report × Cells) (sec : Nat) (l : Line) : Report × Cells := Id.run do
+  let mut r := { st.1 with ops := st.1.ops + 1 }
+  let cs := st.2
+  let opS := joinSp l.op
+  match l.op, l.obs with
+  | ["ae", "set", n, k], [o] =>
+    let some k := k.toNat? | return (r.mismatch sec l.idx "bad-op" opS, cs)
+    if o ≠ "ok" then return (r.violation sec l.idx s!"AtomicError.Set({k}) => {o} op=[{opS}]", cs)
+    r := r.addCover (if k = 0 then (if (cellGet cs n).isSome then "ae-set-nil-after-error" else "ae-set-nil-on-empty") else
+      (if (cellGet cs n).isSome then "ae-set-overwrites" else "ae-set-first"))
+    return (r, cellPut cs n (aeSet (cellGet cs n) (if k = 0 then none else some k)))
+  | ["ae", "load", n], [o] =>
+    let some v := parseCell o | return (r.violation sec l.idx s!"AtomicError.Load() => {o}: neither nil nor an error that was set op=[{opS}]", cs)
+    let m := aeLoad (cellGet cs n)
+    r := r.addCover (if m.isSome then "ae-load-error" else "ae-load-nil")
+    if cs.length > 1 then r := r.addCover "ae-several-instances"
+    if v ≠ m then
+      r := r.violation sec l.idx s!"AtomicError: Load() = {o}, but the last non-nil error set on this instance is {showCell m} (a recorded error must be returned, Set(nil) must not erase it, instances are independent) op=[{opS}]"
+    return (r, cs)
+  | "ae" :: "cset" :: n :: ks, [o] =>
+    let some ks := ks.mapM (·.toNat?) | return (r.mismatch sec l.idx "bad-op" opS, cs)
+    let some v := parseCell o | return (r.violation sec l.idx s!"AtomicError.Load() => {o} op=[{opS}]", cs)
+    r := r.addCover "ae-concurrent-sets"
+    match v with
+    | some k =>
+      if ¬ ks.contains k ∨ k = 0 then
+        r := r.violation sec l.idx s!"AtomicError: Load() = {o} after concurrent Set calls with {showNats ks}: not one of them op=[{opS}]"
+    | none => r := r.violation sec l.idx s!"AtomicError: Load() = nil after concurrent Set calls with non-nil errors op=[{opS}]"
+    return (r, cellPut cs n v)
+  | _, _ => return (r.mismatch sec l.idx "bad-op" (opS ++ " => " ++ joinSp l.obs), cs)
+
 def runSection (r : Report) (s : Section) : Report :=
-  s.lines.foldl (fun r l => runLine r s.idx l) r
+  if s.lines.all (fun l => l.op.head? = some "ae") ∧ ¬ s.lines.isEmpty then
+    (s.lines.foldl (fun st l => runAe st s.idx l) (r, [])).1
+  else s.lines.foldl (fun r l => runLine r s.idx l) r
 
 def driver (secs : List Section) : Report := secs.foldl runSection {}
 
